@@ -34,6 +34,29 @@ func c08writer() {
 	}
 }
 
+// c08writer2 <dir> <n>: n updates of alice that keep the password ("stable-pw") and alternate the parameter set
+// (two configurations of the same directory with different defaults): what upgrades and re-hashing do
+func c08writer2() {
+	dir := os.Args[2]
+	n, _ := strconv.Atoi(os.Args[3])
+	d1, err1 := store.NewDirFromConfig(filepath.Join(dir, "store.yml"))
+	d2, err2 := store.NewDirFromConfig(filepath.Join(dir, "store-alt.yml"))
+	if err1 != nil || err2 != nil {
+		fmt.Fprintln(os.Stderr, err1, err2)
+		os.Exit(2)
+	}
+	for i := 1; i <= n; i++ {
+		d := d1
+		if i%2 == 1 {
+			d = d2
+		}
+		if err := d.UpdateUser("alice", "stable-pw"); err != nil {
+			fmt.Fprintln(os.Stderr, "update failed:", err)
+			os.Exit(3)
+		}
+	}
+}
+
 func c08readers() {
 	R := vr.New("C08", "readers", "a separate writer process performs a series of updates of one user (record with auxiliary lines) while 4 reader goroutines in this process poll the file raw and through Authenticate; every raw observation must be a complete record: strict first line whose digest matches one of the written passwords (monotonically advancing) followed by the intact auxiliary bytes. Non-trivial: an observation made while the writer is running; distinct by observed record line")
 	defer R.Write()
@@ -125,5 +148,81 @@ func c08readers() {
 		R.Violate("c08:writer-failed", "writer process failed: "+err.Error(), "readers", nil)
 	}
 	R.Set("updates_performed", n)
+	c08AuthReaders(R, dir, self)
 	R.Sample(map[string]any{"updates": n, "readers": 4, "target": "alice.user with 5000 bytes of auxiliary data"})
+}
+
+// c08AuthReaders: readers that go through Authenticate while another process re-hashes the same password under
+// alternating parameter sets. The password is right for the old and for the new record at every instant, so every
+// verdict must be positive (and a near miss negative): a reader that combines pieces of two records sees neither.
+func c08AuthReaders(R *vr.Result, dir, self string) {
+	if !R.Want("auth-readers") {
+		return
+	}
+	R.Mark("auth-readers")
+	d, err := store.NewDirFromConfig(filepath.Join(dir, "store.yml"))
+	if err != nil {
+		R.Fatal = err.Error()
+		return
+	}
+	if err := d.UpdateUser("alice", "stable-pw"); err != nil {
+		R.Fatal = "auth-readers prep: " + err.Error()
+		return
+	}
+	sets := scSets()
+	alt := uint(2)
+	if scFind("update-aux5k").Algo == "argon" {
+		alt = 1
+	}
+	os.WriteFile(filepath.Join(dir, "store-alt.yml"), []byte(ref.YAML(filepath.Join(dir, "base"), alt, sets)), 0600) //nolint:errcheck
+	n := vr.Pick(4000, 30000)
+	cmd := exec.Command(self, "c08writer2", dir, strconv.Itoa(n))
+	cmd.Stderr = os.Stderr
+	if err := cmd.Start(); err != nil {
+		R.Fatal = err.Error()
+		return
+	}
+	done := make(chan error, 1)
+	go func() { done <- cmd.Wait() }()
+	stop := make(chan struct{})
+	var wg sync.WaitGroup
+	for r := 0; r < 6; r++ {
+		wg.Add(1)
+		go func(r int) {
+			defer wg.Done()
+			lastUp, flips := false, 0
+			for i := 0; ; i++ {
+				select {
+				case <-stop:
+					R.Count("auth_reader_versions_seen", flips)
+					return
+				default:
+				}
+				ok, _, up, _, err := d.Authenticate("alice", "stable-pw")
+				R.Count("auth_reader_observations", 1)
+				if up != lastUp {
+					flips++
+					lastUp = up
+				}
+				if !ok {
+					R.Case(fmt.Sprintf("auth-readers|rejected|%d|%d", r, i), true)
+					R.Violate("c08:reader-authenticate-rejects-unchanged-password-during-update", fmt.Sprintf("while another process re-hashes alice's (unchanged) password under alternating parameter sets, Authenticate with that password answered false (error: %v): the password is the right one for the old record and for the new one, a reader that rejects it has combined parts of both", err), "auth-readers", map[string]any{"error": fmt.Sprint(err), "reader": r, "iteration": i})
+					time.Sleep(time.Millisecond)
+				}
+				if i%8 == 0 {
+					if ok2, _, _, _, _ := d.Authenticate("alice", "stable-pW"); ok2 {
+						R.Violate("c08:reader-authenticate-accepts-near-miss-during-update", "a near miss of the password authenticated while the record was being rewritten", "auth-readers", nil)
+					}
+				}
+			}
+		}(r)
+	}
+	err = <-done
+	close(stop)
+	wg.Wait()
+	R.Case("auth-readers", true)
+	if err != nil {
+		R.Violate("c08:writer-failed", "writer process (alternating parameter sets) failed: "+err.Error(), "auth-readers", nil)
+	}
+	R.Set("rehash_updates_performed", n)
 }
